@@ -25,12 +25,20 @@ struct Pre {
 }
 
 fn any_frame() -> (Frame, Pre) {
+    any_frame_with(None)
+}
+
+// `fixed_nlocals`: a concrete number of locals (keeps Vec lengths concrete for symbolic execution)
+fn any_frame_with(fixed_nlocals: Option<usize>) -> (Frame, Pre) {
     let tb: u8 = kani::any();
     let count: u8 = kani::any();
     let used: u8 = kani::any();
     kani::assume(count <= 3 && tb as u32 + count as u32 <= 255);
     kani::assume(used >= count && tb as u32 + used as u32 <= 255);
-    let nlocals: usize = kani::any();
+    let nlocals: usize = match fixed_nlocals {
+        Some(n) => n,
+        None => kani::any(),
+    };
     kani::assume(nlocals <= 3 && 1 + nlocals <= tb as usize);
     let mut kinds = [0u8; 3];
     let mut ids = [0u32; 3];
@@ -96,6 +104,8 @@ fn invariant(f: &Frame) -> bool {
 // @fns Frame::push_register, Frame::pop_register, Frame::next_temporary_register, Frame::available_registers_count, Frame::registers_used, Frame::peek_register, Frame::register_stack_size
 // @bound one operation from an arbitrary frame satisfying the invariant: temporary_base over all of u8, temporary_count <= 3 (operations only touch the top of the stack), so tb + count reaches 255
 // @assume representation invariant I of the register stack (established by Frame::new, preserved by every operation: asserted here)
+// @kani --no-memory-safety-checks --no-assertion-reach-checks
+// @mem 10
 #[kani::proof]
 #[kani::unwind(6)]
 #[kani::stub(std::hash::RandomState::new, stub_random_state)]
@@ -148,6 +158,8 @@ fn c05_frame_temporaries() {
 // @props C05 C06
 // @fns Frame::truncate_register_stack
 // @bound arbitrary frame (as above), target size 0..=count+1
+// @kani --no-memory-safety-checks --no-assertion-reach-checks
+// @mem 10
 #[kani::proof]
 #[kani::unwind(6)]
 #[kani::stub(std::hash::RandomState::new, stub_random_state)]
@@ -182,12 +194,22 @@ fn owner_count(f: &Frame, id: u32) -> usize {
 
 // @props C05 C06
 // @fns Frame::assign_local_register, Frame::reserve_local_register, Frame::commit_local_register, Frame::get_local_assigned_register, Frame::get_local_assigned_or_reserved_register
-// @bound one operation from an arbitrary frame: self + up to 3 locals in any state (Assigned / Reserved / Allocated) with ids from {0..4}, temporary_base over all of u8, id argument from {0..4}
+// @timeout 1500
+// @bound one operation from an arbitrary frame: self + 0, 1, 2 or 3 locals (concrete count per block) in any state (Assigned / Reserved / Allocated) with ids from {0..4}, temporary_base over all of u8, id argument from {0..4}
+// @kani --no-memory-safety-checks --no-assertion-reach-checks
+// @mem 10
 #[kani::proof]
 #[kani::unwind(7)]
 #[kani::stub(std::hash::RandomState::new, stub_random_state)]
 fn c05_frame_locals() {
-    let (mut f, pre) = any_frame();
+    frame_locals_case(0);
+    frame_locals_case(1);
+    frame_locals_case(2);
+    frame_locals_case(3);
+}
+
+fn frame_locals_case(nlocals: usize) {
+    let (mut f, pre) = any_frame_with(Some(nlocals));
     let id: u32 = kani::any();
     kani::assume(id < 5);
     // where does `id` live before the call?
@@ -247,18 +269,8 @@ fn c05_frame_locals() {
     std::mem::forget(f);
 }
 
-// @props C05 C06
-// @fns Frame::new
-// @bound any local_count (u8), up to 3 args of any kind (Local / Unpacked / Placeholder), up to 3 captures: every sum 1..=262 is reached
-// @assume local_count >= number of named args (the parser counts args as locals)
-#[kani::proof]
-#[kani::unwind(6)]
-#[kani::stub(std::hash::RandomState::new, stub_random_state)]
-fn c05_frame_new() {
+fn frame_new_case(nargs: usize, ncaps: usize) {
     let local_count: u8 = kani::any();
-    let nargs: usize = kani::any();
-    let ncaps: usize = kani::any();
-    kani::assume(nargs <= 3 && ncaps <= 3);
     let mut kinds = [0u8; 3];
     let mut i = 0;
     while i < 3 {
@@ -329,7 +341,23 @@ fn c05_frame_new() {
     }
     kani::cover!(total == 255, "exactly 255");
     kani::cover!(total == 256, "one too many");
-    kani::cover!(nargs == 3 && ncaps == 3 && kinds[0] == 1 && kinds[1] == 2 && kinds[2] == 0 && total <= 255, "mixed arg kinds with captures");
+}
+
+// @props C05 C06
+// @fns Frame::new
+// @bound any local_count (u8); (args, captures) counts (0,0), (1,3), (3,2) and (3,3) with every mix of arg kinds (Local / Unpacked / Placeholder): every sum 1..=262 is reached. Slice lengths are concrete per block (symbolic lengths: out of memory at 30 GB)
+// @assume local_count >= number of named args (the parser counts args as locals)
+// @kani --no-memory-safety-checks --no-assertion-reach-checks
+// @mem 10
+// @timeout 1200
+#[kani::proof]
+#[kani::unwind(6)]
+#[kani::stub(std::hash::RandomState::new, stub_random_state)]
+fn c05_frame_new() {
+    frame_new_case(0, 0);
+    frame_new_case(1, 3);
+    frame_new_case(3, 2);
+    frame_new_case(3, 3);
 }
 
 fn unpacked_before(kinds: &[u8; 3], a: usize, nargs: usize) -> usize {
